@@ -343,8 +343,28 @@ def handleMetric (ops : String) : String := Id.run do
     | _ => return "bad-op"
   return ";".intercalate out
 
+
+/-- index bookkeeping for any number of users: `tidx K N k` -> rows of the tilde channel;
+    `sidx K N u1,u2,…` -> rows of the sub channel of the listed users -/
+def handleIdx : List String → String
+  | ["tidx", sK, sN, sk] => Id.run do
+      let some [K, N, k] := nats [sK, sN, sk] | return "bad-op"
+      if hk : k < K then
+        return ",".intercalate ((tildeIdx (N := N) (⟨k, hk⟩ : Fin K)).map (fun x => toString x.val))
+      else return "error:IndexError"
+  | ["sidx", sK, sN, us] => Id.run do
+      let some [K, N] := nats [sK, sN] | return "bad-op"
+      let some ul := parseNatList? (emptyOk us) | return "bad-op"
+      let mut users : List (Fin K) := []
+      for u in ul do
+        if hu : u < K then users := users ++ [⟨u, hu⟩] else return "error:IndexError"
+      return ",".intercalate ((subIdx (N := N) users).map (fun x => toString x.val))
+  | _ => "bad-op"
+
 def handleAll (toks : List String) : String :=
   match toks with
+  | "tidx" :: _ => handleIdx toks
+  | "sidx" :: _ => handleIdx toks
   | ["metric", ops] => handleMetric ops
   | op :: _ =>
     if op = "bdwf" ∨ op = "bdnowf" ∨ op = "wbd" ∨ op = "enone" ∨ op = "ered" ∨ op = "edec" then handleWhole toks
